@@ -612,7 +612,7 @@ def loadTracks (s : Seq) (fmt : Fmt) (smfFormat : Nat) (deltaTicks : Nat) (raw :
         fmt := fmt, smfFormat := smfFormat, tracks := tracks, cur := cur, beginPos := cur, loopBegin := loopBegin,
         fullLen := fadd full s.postWait, loopStartTime := ls, loopEndTime := le, invDelta := invDelta, tempo := tempo0,
         atEnd := false,
-        loop := { caughtStart := true, invalidLoop := invalid, loopsCount := s.loopCount, loopsLeft := s.loopCount, stackLevel := -1,
+        loop := { caughtStart := false, invalidLoop := invalid, loopsCount := s.loopCount, loopsLeft := s.loopCount, stackLevel := -1,
                   stack := b.stack.map fun e => { infinity := e.infinity, loops := e.loops } },
         trackDisable := tracks.map fun _ => false, solo := none, chanDisable := List.replicate 16 false, loaded := true })
 
